@@ -16,10 +16,13 @@ MANIFEST = {
 def jobs(tier):
     J = C02.jobs(tier, prop="ASSERT_C09")
     J = [j for j in J if "foreach" not in j.name]
-    J.append(C02.op_job("notify_diff_v4_d0", "harness_notify_diff", 0, 2, 4, 1500, prop="ASSERT_C09", harness="pfx_notify.c"))
+    J.append(C02.op_job("notify_diff_v4_d0e1", "harness_notify_diff", 0, 1, 4, 1500, prop="ASSERT_C09", harness="pfx_notify.c",
+                        extra=["TL_OTHER_EMPTY"], mem=28, weight=6,
+                        what="pfx_table_notify_diff on two arbitrary Inv-valid tables of <=1 IPv4 node + <=1 IPv6 node with one record each"))
     J.append(C02.op_job("free_v4_d1", "harness_free", 1, 2, 4, 1500, prop="ASSERT_C09", harness="pfx_notify.c"))
+    J[-2].solver = ["--sat-solver", "cadical"]  # MiniSat runs out of memory on the two-table formula
     if tier == "thorough":
-        J.append(C02.op_job("notify_diff_v4_d1e1", "harness_notify_diff", 1, 1, 4, 3600, prop="ASSERT_C09", harness="pfx_notify.c", weight=3, mem=24))
+        J.append(C02.op_job("notify_diff_v4_d0e2", "harness_notify_diff", 0, 2, 4, 5400, prop="ASSERT_C09", harness="pfx_notify.c", weight=3, mem=24))
         J.append(C02.op_job("notify_diff_v6_d0", "harness_notify_diff", 0, 2, 6, 3600, prop="ASSERT_C09", harness="pfx_notify.c", weight=2))
         J.append(C02.op_job("free_v6_d1", "harness_free", 1, 1, 6, 3600, prop="ASSERT_C09", harness="pfx_notify.c", weight=2))
     # roll-back of a failed response and reload: net callback effect (table model; real notify_diff above)
